@@ -267,44 +267,7 @@ func runC13(c *core.Ctx, o Options) {
 	checkNotification(c, "Z4", lib)
 	// ---- Z6 timers: after TakeTimeout a non-blocking test of the session context that returns
 	if s := newSess(c); s != nil {
-		if st := s.m.Method("start"); st != nil {
-			// the functions start spawns: literals or named functions of the package
-			var routines []*ssa.Function
-			an.AllInstrs(st, func(in ssa.Instruction) {
-				if gg, ok := in.(*ssa.Go); ok {
-					if g := an.StaticCallee(&gg.Call); g != nil && len(g.Blocks) > 0 && g.Pkg == st.Pkg {
-						routines = append(routines, g)
-					} else {
-						c.Ob("Z6", "start", "go statement with a resolvable body", in.Pos()).Unknown("cannot resolve the function spawned here")
-					}
-				}
-			})
-			for _, g := range routines {
-				ok := false
-				an.AllInstrs(g, func(in ssa.Instruction) {
-					if sel, isSel := in.(*ssa.Select); isSel && !sel.Blocking && len(sel.States) == 1 && doneContext(sel.States[0].Chan) == "s.ctx" {
-						// preceded in the same block by TakeTimeout
-						for _, i2 := range sel.Block().Instrs {
-							if call, isCall := i2.(*ssa.Call); isCall && an.CalleeIs(&call.Call, "utils", "Timer.TakeTimeout") {
-								ok = true
-							}
-							if i2 == ssa.Instruction(sel) {
-								break
-							}
-						}
-					}
-				})
-				c.Check(ok, "Z6", g.Name(), "tests the session context right after every wake-up", g.Pos(), "TakeTimeout; select { case <-s.ctx.Done(): return; default: }", "the timer goroutine does not test s.ctx.Done() after its wait: it keeps sending after the session ended")
-				// and closes its timer on exit
-				closes := false
-				an.AllInstrs(g, func(in ssa.Instruction) {
-					if d, isD := in.(*ssa.Defer); isD && an.CalleeIs(&d.Call, "utils", "Timer.Close") {
-						closes = true
-					}
-				})
-				c.Check(closes, "Z6", g.Name(), "releases its timer when it ends", g.Pos(), "defer timer.Close()", "the timer is not closed when the goroutine ends")
-			}
-		}
+		checkTimerRoutines(c, s, "Z6")
 		// ---- Z7b: event callbacks registered by the library do not touch the pool they run under
 		for _, r := range s.roots() {
 			if r.Cat != "event" {
@@ -910,3 +873,80 @@ func findCycle(adj map[string][]string) string {
 }
 
 var _ callgraph.Graph
+
+// checkTimerRoutines: every function start spawns tests the session context right after each wake-up of its timer (before it
+// sends or changes state) and closes its timer when it ends.
+func checkTimerRoutines(c *core.Ctx, s *sess, rule string) {
+	if st := s.m.Method("start"); st != nil {
+		// the functions start spawns: literals or named functions of the package
+		var routines []*ssa.Function
+		an.AllInstrs(st, func(in ssa.Instruction) {
+			if gg, ok := in.(*ssa.Go); ok {
+				if g := an.StaticCallee(&gg.Call); g != nil && len(g.Blocks) > 0 && g.Pkg == st.Pkg {
+					routines = append(routines, g)
+				} else {
+					c.Ob(rule, "start", "go statement with a resolvable body", in.Pos()).Unknown("cannot resolve the function spawned here")
+				}
+			}
+		})
+		for _, g := range routines {
+			ok := false
+			an.AllInstrs(g, func(in ssa.Instruction) {
+				if sel, isSel := in.(*ssa.Select); isSel && !sel.Blocking && len(sel.States) == 1 && doneContext(sel.States[0].Chan) == "s.ctx" {
+					// preceded in the same block by TakeTimeout
+					for _, i2 := range sel.Block().Instrs {
+						if call, isCall := i2.(*ssa.Call); isCall && an.CalleeIs(&call.Call, "utils", "Timer.TakeTimeout") {
+							ok = true
+						}
+						if i2 == ssa.Instruction(sel) {
+							break
+						}
+					}
+				}
+			})
+			// the other spelling: if s.ctx.Err() != nil { return } in the block of the wait
+			an.AllInstrs(g, func(in ssa.Instruction) {
+				call, isCall := in.(*ssa.Call)
+				if !isCall || !call.Call.IsInvoke() || call.Call.Method.Name() != "Err" || an.Render(call.Call.Value) != "s.ctx" {
+					return
+				}
+				waited := false
+				for _, i2 := range call.Block().Instrs {
+					if c2, isC := i2.(*ssa.Call); isC && an.CalleeIs(&c2.Call, "utils", "Timer.TakeTimeout") {
+						waited = true
+					}
+					if i2 == ssa.Instruction(call) {
+						break
+					}
+				}
+				if !waited || call.Referrers() == nil {
+					return
+				}
+				for _, r := range *call.Referrers() {
+					bo, isB := r.(*ssa.BinOp)
+					if !isB || (bo.Op != token.NEQ && bo.Op != token.EQL) {
+						continue
+					}
+					if iff, isIf := call.Block().Instrs[len(call.Block().Instrs)-1].(*ssa.If); isIf && iff.Cond == ssa.Value(bo) {
+						leave := call.Block().Succs[0]
+						if bo.Op == token.EQL {
+							leave = call.Block().Succs[1]
+						}
+						if leadsToReturnWithoutCalls(leave) {
+							ok = true
+						}
+					}
+				}
+			})
+			c.Check(ok, rule, g.Name(), "tests the session context right after every wake-up", g.Pos(), "TakeTimeout; select { case <-s.ctx.Done(): return; default: }", "the timer goroutine does not test s.ctx.Done() after its wait: it keeps sending after the session ended")
+			// and closes its timer on exit
+			closes := false
+			an.AllInstrs(g, func(in ssa.Instruction) {
+				if d, isD := in.(*ssa.Defer); isD && an.CalleeIs(&d.Call, "utils", "Timer.Close") {
+					closes = true
+				}
+			})
+			c.Check(closes, rule, g.Name(), "releases its timer when it ends", g.Pos(), "defer timer.Close()", "the timer is not closed when the goroutine ends")
+		}
+	}
+}
